@@ -22,7 +22,8 @@ EXPLANATION = (
 MIN_MASK_ENVS = 21
 # environments whose mask and step-side validity are conjunct-for-conjunct identical on the pinned tree (the
 # reference for later changes); "noop-clause": the step side additionally tests action != NOOP
-REFERENCE_EQUIVALENT = {"Knapsack": "exact", "TSP": "exact", "Minesweeper": "exact", "SlidingTilePuzzle": "exact", "Connector": "noop-clause"}
+REFERENCE_EQUIVALENT = {"Knapsack": "exact", "TSP": "exact", "Minesweeper": "exact", "SlidingTilePuzzle": "exact", "Connector": "noop-clause",
+                        "CVRP": "exact"}  # CVRP: all entries except the depot (a constant index overridden by .at[DEPOT].set)
 
 
 def check(tier: str) -> Result:
